@@ -14,8 +14,9 @@ from . import repo
 
 
 class Site:
-    def __init__(self, name: str, offsets: List[int], width: int, values: List[int], kind: str = "int"):
+    def __init__(self, name: str, offsets: List[int], width: int, values: List[int], kind: str = "int", keep: bool = False):
         self.name, self.offsets, self.width, self.values, self.kind = name, offsets, width, values, kind
+        self.keep = keep              # quick tiers never sub-sample this site's values
 
     def patch(self, buf: bytearray, vi: int):
         v = self.values[vi]
@@ -161,6 +162,12 @@ def limits_for(size: int) -> Tuple[float, int]:
     return 10.0 + 20e-6 * size, 1536 + (64 * size >> 20)
 
 
+def preload():
+    """import the tool in THIS process so that forked children start with it loaded (the import costs 0.4 s, a probe 2 ms)"""
+    from . import repo as _r  # noqa: F401  (puts REPO on sys.path)
+    import smpl_extract.actions  # noqa: F401
+
+
 def probe(data: bytes, ls_paths: List[str], suffix: str = ".img", extra_files: Dict[str, bytes] = None) -> repo.ChildResult:
     d = tempfile.mkdtemp(prefix="probe_")
     try:
@@ -171,6 +178,7 @@ def probe(data: bytes, ls_paths: List[str], suffix: str = ".img", extra_files: D
             with open(os.path.join(d, name), "wb") as fh:
                 fh.write(b)
         cpu, mem = limits_for(len(data) + sum(len(b) for b in (extra_files or {}).values()))
+        preload()
         return repo.run_child(lambda: tool_run(p, ls_paths, os.path.join(d, "out")), cpu_s=cpu, mem_mb=mem, wall_s=cpu * 2 + 10)
     finally:
         shutil.rmtree(d, ignore_errors=True)
@@ -191,6 +199,7 @@ def parallel(fn: Callable, items: List[Any], procs: int = 12) -> List[Any]:
     if not items:
         return []
     procs = max(1, min(procs, len(items)))
+    preload()
     _FN, _ITEMS = fn, items
     chunks = [list(range(i, len(items), procs)) for i in range(procs)]
     ctx = mp.get_context("fork")
